@@ -98,6 +98,8 @@ def dim_alphabet(s, tier, reduced=False):
     A += [["tensor", [0]], ["tensor", [s - 1, 0]], ["tensor", [0, 0, s - 1]]]
     if not reduced:
         A += [["tensor", [-1]], ["tensor", [-s, s - 1]]]  # 1-d index tensors only (multi-dim tensors: no agreed event/batch meaning)
+    # the other index objects `mean[idx]` accepts: numpy integers, 0-dim tensors, boolean masks, python lists
+    A += [["npint", s - 1], ["tensor0", 0], ["mask", [i != 1 for i in range(s)] if s > 1 else [True]], ["list", [s - 1, 0]]]
     return A
 
 
@@ -110,6 +112,15 @@ def mk(e):
         return torch.tensor(e[1], dtype=torch.long)
     if e[0] == "ellipsis":
         return Ellipsis
+    if e[0] == "npint":
+        import numpy
+        return numpy.int64(e[1])
+    if e[0] == "tensor0":
+        return torch.tensor(e[1], dtype=torch.long)
+    if e[0] == "mask":
+        return torch.tensor(e[1], dtype=torch.bool)
+    if e[0] == "list":
+        return list(e[1])
     raise AssertionError(e)
 
 
@@ -120,7 +131,8 @@ def kind(e):
     return e[0]
 
 
-BATCH_ALPHA = [["slice", None, None, None], ["int", 0], ["int", -1], ["slice", 0, 1, None], ["slice", 1, None, None]]
+BATCH_ALPHA = [["slice", None, None, None], ["int", 0], ["int", -1], ["slice", 0, 1, None], ["slice", 1, None, None],
+               ["tensor", [1, 0]], ["tensor0", 1]]   # (an index tensor on the batch dimension pairs up with one on a point / task dimension)
 FORMS = ["full", "e0", "e1", "e2", "row", "ecol", "rowe", "bare"]
 
 
